@@ -31,8 +31,10 @@ Common(a, b) == IF a = <<>> \/ b = <<>> \/ Head(a) # Head(b) THEN 0 ELSE 1 + Com
 
 \* the url iwe should write to point at key k from a note in directory d
 \* (RelativePath::new(d).relative(k)): up out of d to the common ancestor, then down
+\* (the last segment of a key is a file name, never part of the common directory prefix:
+\* the note a seen from the directory a/ is "../a")
 ToRel(k, d) ==
-    LET c == Common(k, d)
+    LET c == Common(Dir(k), d)
     IN  [up |-> Len(d) - c, segs |-> SubSeq(k, c + 1, Len(k)), md |-> FALSE, dot |-> FALSE]
 
 \* C15 -----------------------------------------------------------------------
